@@ -132,7 +132,8 @@ def validate(ctx, tier, seed):
 def spec(ctx, tier, seed):
     ctx.engine()
     Ls = range(0, 7) if tier == "quick" else range(0, 9)
-    jobs = [Job('%s-L%d' % (k, L), 'harness.c20', 'iter_job', {'L': L, 'kind': k}) for k in KINDS for L in Ls]
+    # fuel: the longest run yields 3^L items of L entries; the budget is derived from that (exceeding it would be inconclusive, not a pass)
+    jobs = [Job('%s-L%d' % (k, L), 'harness.c20', 'iter_job', {'L': L, 'kind': k}, max_steps=2_000_000 + 400 * L * (3 ** L)) for k in KINDS for L in Ls]
     jobs.append(Job('canary', 'harness.c20', 'iter_job', {'L': 2, 'kind': 'two', 'canary': True}, stop_after_violations=1, canary=True))
     return {'jobs': jobs, 'level': 'model_checking', 'assumptions': ASSUMPTIONS, 'allowed_status': ('ok', 'panic', 'bound'),
             'bounds': 'interpretation vectors of length L <= %d; every entry an unconstrained symbolic 64-bit handle, so each path covers all vectors with one '
